@@ -48,6 +48,7 @@ func allProps() []PropSpec {
 				{Func: "ZZ_C03_Trailers", Pkg: "pkg/protocol", Quick: map[string]int{"N": 4}, Thorough: map[string]int{"N": 5}, Covers: []string{"reached-end"}},
 				{Func: "ZZ_C03_Boundary", Pkg: "pkg/protocol", Quick: map[string]int{"N": 6}, Thorough: map[string]int{"N": 8}, Covers: []string{"reached-end"}},
 				{Func: "ZZ_C03_ParseUint", Pkg: "pkg/protocol", Quick: map[string]int{"N": 6}, Thorough: map[string]int{"N": 10}, Covers: []string{"reached-end", "parsed"}},
+				{Func: "ZZ_C03_SRV", Pkg: "pkg/protocol/http1", Quick: map[string]int{"W": 1}, Thorough: map[string]int{"W": 2}, Covers: []string{"reached-assert", "rejected", "accepted-both"}},
 			},
 			Assumptions: []string{"time.Parse/ParseInLocation is an opaque stub that succeeds or fails nondeterministically", "inputs longer than the stated bounds are outside the claim"},
 		},
@@ -71,6 +72,27 @@ func allProps() []PropSpec {
 				{Func: "ZZ_C17_H4", Pkg: "pkg/protocol", Quick: map[string]int{"M": 1}, Thorough: map[string]int{"M": 2}, Covers: []string{"reached-assert"}},
 			},
 			Assumptions: []string{"cookie expires (time formatting) is outside the claim; max-age ranges over 5 representative values", "agreement with net/url is checked against a reference implementing net/url.QueryUnescape's acceptance rule, not against net/url.ParseQuery on whole strings", "URI FullURI/Parse fixed point is checked in ZZ_C17_H3 when present"},
+		},
+		{
+			ID: "C19",
+			Harnesses: []HarnessSpec{
+				{Func: "ZZ_C19_H1", Pkg: "pkg/protocol/http1", Quick: map[string]int{"K": 2, "OPS": 2, "TRUNCK": 1}, Thorough: map[string]int{"K": 2, "OPS": 4, "TRUNCK": 2}, Covers: []string{"reached-assert", "two-handled", "fault-hit"}, MaxSteps: 4000000},
+			},
+			Assumptions: []string{"in-loop transport (standard.Conn); netpoll's return-to-poller mode is represented only by IdleTimeout == 0", "clock stub: monotonically increasing instants", "at most one injected fault per connection; request templates are concrete"},
+		},
+		{
+			ID: "C14",
+			Harnesses: []HarnessSpec{
+				{Func: "ZZ_C14_H1", Pkg: "pkg/protocol/http1", Quick: map[string]int{"L": 6, "C": 2, "S": 6, "R": 3}, Thorough: map[string]int{"L": 9, "C": 2, "S": 7, "R": 4}, Covers: []string{"reached-assert", "stopped-mid-body", "read-to-eof"}, MaxSteps: 4000000},
+			},
+			Assumptions: []string{"transport: real standard.Conn over a harness net.Conn, delivered whole or byte-at-a-time; netpoll outside", "small bodies (<= 9 bytes) with small prefetch limits exercise the same code paths as the 8 KiB regime; the 8 KiB regime itself is not run", "read-buffer sizes from {0,1,3,16}"},
+		},
+		{
+			ID: "C18",
+			Harnesses: []HarnessSpec{
+				{Func: "ZZ_C18_H1", Pkg: "pkg/protocol/http1", Covers: []string{"reached-assert", "stopped-during-first"}},
+			},
+			Assumptions: []string{"only the sequential clauses of C18 are decided: the per-request exit check of the keep-alive loop (and the Shutdown status machine when ZZ_C18_H2 is listed); hooks, listener close, wait bound, and all timing/interleaving clauses are outside this technique"},
 		},
 	}
 }
